@@ -136,6 +136,13 @@ def _invert(a):
     raise Unsupported("bitwise invert of %r" % (a,))
 
 
+def _fext(a, b, is_max):
+    """np.fmax / np.fmin: like maximum / minimum but a NaN operand is ignored"""
+    a, b = Q.lift(a), Q.lift(b)
+    an, bn = a.nan_to(b), b.nan_to(a)      # forks when a NaN flag is undecided
+    return an.maximum(bn) if is_max else an.minimum(bn)
+
+
 def _sign(a):
     a = Q.lift(a)
     r = Q.ite((a > 0), Q.lift(1), Q.ite(a < 0, Q.lift(-1), Q.lift(0)))
@@ -161,6 +168,8 @@ _BIN = {
     np.bitwise_or: _or,
     np.minimum: lambda a, b: Q.lift(a).minimum(b),
     np.maximum: lambda a, b: Q.lift(a).maximum(b),
+    np.fmax: lambda a, b: _fext(a, b, True),
+    np.fmin: lambda a, b: _fext(a, b, False),
 }
 _UN = {
     np.negative: lambda a: -Q.lift(a),
